@@ -1,1 +1,12 @@
-
+//! Class-file side of the harness: semantic model ("facts"), independent strict parser/validator,
+//! independent emitter with layout choices, seeded generator, projection of duke trees into the model.
+pub mod model;
+pub mod mutf8;
+pub mod parse;
+pub mod emit;
+pub mod gen;
+pub mod project;
+pub mod diff;
+pub mod opcodes;
+pub mod features;
+pub mod corpus;
